@@ -72,6 +72,13 @@ def _d2(chk, fb):
     f = fb.q1(APA + "::operator=")
     cfg = f.cfg
     fills = _own_member_fills(f)
+    # insertions made by a same-class helper that receives the source object count at the helper's call site
+    src = f.params[0]["name"]
+    for c in f.calls():
+        if c["callee"].get("inrepo") and c["callee"].get("cls") == APA and any(render(a) == src for a in f.args(c)):
+            for t in fb.targets(c):
+                if t.body is not None:
+                    fills += [(m, c) for m, _ in _own_member_fills(t)]
     members = sorted({m for m, _ in fills})
     chk.floor("D2", "members re-populated by insertion in operator=", len(members), 2)
     for m in members:
@@ -97,7 +104,13 @@ def _d2(chk, fb):
 def _d3(chk, fb):
     fns = [f for f in fb.q(APA + "::AbstractParameterAliasable") if f.rec.get("copyctor")] + [fb.q1(APA + "::operator=")]
     chk.floor("D3", "copy functions", len(fns), 2)
-    for f in fns:
+    work = list(fns)
+    seen_keys = set()
+    while work:
+        f = work.pop(0)
+        if f.key in seen_keys:
+            continue
+        seen_keys.add(f.key)
         cfg = f.cfg
         src = f.params[0]["name"]
         sub = local_inits(f)
@@ -109,7 +122,21 @@ def _d3(chk, fb):
                     if d.get("init") is not None and any(is_call(x) and x["callee"]["name"] == "clone" for x in walk(d["init"])) and "Listener" in d["ty"]:
                         clones.append((d, n))
         if not clones:
-            chk.refuted("D3", f.key, "listener-cloned", f.loc(), "copy no longer clones the alias listeners of the source")
+            # the copy work may have been moved into a helper of the same class that receives the source object
+            helpers = []
+            for c in f.calls():
+                if c["callee"].get("inrepo") and c["callee"].get("cls") == APA and any(render(a) == src for a in f.args(c)):
+                    for t in fb.targets(c):
+                        if t.body is not None and t.cfg is not None and t.params and t.key not in seen_keys:
+                            helpers.append(t)
+            if helpers:
+                work.extend(helpers)
+                chk.proved("D3", f.key, "listener-cloned", f.loc(), "copy delegated to %s (analysed in its place)" % ", ".join(h.name for h in helpers))
+                continue
+            if any(is_call(x) and x["callee"]["name"] == "clone" for x in f.all_nodes()):
+                chk.unknown("D3", f.key, "listener-cloned", f.loc(), "clone() present but not in the recognised declaration form")
+                continue
+            chk.refuted("D3", f.key, "listener-cloned", f.loc(), "copy no longer clones the alias listeners of the source (neither here nor in a helper that receives the source)")
             continue
         for d, ds in clones:
             uses = []
@@ -275,6 +302,36 @@ def _d6(chk, fb):
         chk.refuted("D6", f.key, "intersection-operands", f.loc(ops), "the intersection is not taken between the two parameters' constraints: %s" % operands)
 
 
+def _d7(chk, fb):
+    """removing one alias listener must not disturb the others: Parameter::removeParameterListener erases exactly the
+    listeners whose id matches (erase-remove idiom: the first iterator of a two-iterator erase ending at end() must come
+    from std::remove_if / std::remove; an iterator from find / find_if would erase the whole tail)"""
+    fs = [f for f in fb.q("bpp::Parameter::removeParameterListener") if f.body is not None]
+    if len(fs) != 1:
+        raise AnalysisBroken("anchor vanished: Parameter::removeParameterListener")
+    f = fs[0]
+    er = [c for c in f.calls() if c["callee"]["name"] == "erase" and "obj" in c and render(f.obj(c)).replace("this.", "") == "listeners_"]
+    if not er:
+        chk.unknown("D7", f.key, "removes-only-matching", f.loc(), "no erase on listeners_ recognised")
+        return
+    for c in er:
+        args = f.args(c)
+        first = strip(args[0]) if args else None
+        src = first["callee"]["name"] if first is not None and is_call(first) else (render(first) if first is not None else "?")
+        if len(args) == 2 and render(args[1]).replace("this.", "") == "listeners_.end()":
+            if src in ("remove_if", "remove"):
+                chk.proved("D7", f.key, "removes-only-matching", f.loc(c), "erase(%s(...), end()): exactly the matching listeners" % src)
+            elif src in ("find_if", "find", "lower_bound", "upper_bound", "begin") or (first is not None and first["k"] == "DeclRefExpr"):
+                chk.refuted("D7", f.key, "removes-only-matching", f.loc(c), "erase(%s(...), listeners_.end()) removes the matching listener AND every listener registered after it: un-aliasing one parameter silently detaches the other aliases of the same source" % src,
+                            witness={"history": "a aliased by b, c, d; unaliasParameters(a, b); set a; c and d no longer follow"})
+            else:
+                chk.unknown("D7", f.key, "removes-only-matching", f.loc(c), "first iterator comes from '%s'" % src)
+        elif len(args) == 1:
+            chk.unknown("D7", f.key, "removes-only-matching", f.loc(c), "single-iterator erase (removes one occurrence)")
+        else:
+            chk.unknown("D7", f.key, "removes-only-matching", f.loc(c), "erase form not recognised")
+
+
 def run(chk, fb, tier):
     chk.rule("D1", "no loop of the bulk-alias routine has a state-preserving cyclic path (exception edges included)")
     chk.rule("D2", "operator= clears every member it re-populates by insertion")
@@ -290,6 +347,8 @@ def run(chk, fb, tier):
     _d4(chk, fb)
     _d5(chk, fb)
     _d6(chk, fb)
+    chk.rule("D7", "Parameter::removeParameterListener erases exactly the listeners with the given id (erase-remove idiom), so that un-aliasing one link leaves the other links attached")
+    _d7(chk, fb)
     from . import copyrule
     chk.rule("DC", "copy constructor and copy assignment copy the same members; operator= empties a member container before re-populating it; copy functions never assign through a stored shared pointer")
     copyrule.check(chk, fb, "DC", lambda c: c["file"].endswith(("Bpp/Numeric/AbstractParameterAliasable.h",)), floor=2)
